@@ -406,6 +406,9 @@ func runHubs(c *ctxT, closeHeavy bool) {
 			queueScenario(c, r)
 		}
 	}
+	for i := 0; i < c.scale(150, 4000); i++ {
+		queueSeq(c, c.rng.Fork(), closeHeavy)
+	}
 	if closeHeavy {
 		closeStacks(c)
 	} else {
